@@ -527,7 +527,7 @@ func getObjStm(r Getter, stream *Stream, getInt getIntFn, enc *encryptInfo) (_ *
 	}()
 
 	N, ok := stream.Dict["N"].(Integer)
-	if !ok || N < 0 || N > 10000 {
+	if !ok || N < 0 || N > maxObjStmMembers {
 		return nil, &MalformedFileError{Err: errors.New("no valid /N")}
 	}
 	n := int(N)
